@@ -31,6 +31,26 @@ def search_mc(chk, tier):
             raise C.ToolError("vacuity guard %s not reachable in StepSizeSearch" % inv)
 
 
+def search_inductive(chk):
+    """Apalache: IndInv of StepSizeSearchInd is inductive for every MaxTries (base case and step), so the
+    bracketing property does not depend on the bound TLC explores."""
+    import subprocess, time
+    out_dir = C.workdir("c07_apalache")
+    for label, args in [("base", ["--init=Init", "--length=0"]), ("step", ["--init=IndInit", "--length=1"])]:
+        t0 = time.time()
+        cmd = ["timeout", "900", "apalache-mc", "check", "--out-dir=" + out_dir, "--cinit=ConstInit", "--inv=IndInv"] + args + \
+              ["StepSizeSearchInd.tla"]
+        p = subprocess.run(cmd, cwd=C.SPEC, stdout=subprocess.PIPE, stderr=subprocess.STDOUT, text=True)
+        ok = "EXITCODE: OK" in p.stdout
+        chk.part("search_inductive_" + label, ok=ok, wall_s=round(time.time() - t0, 1), cmd=" ".join(cmd))
+        if "Checker has found an error" in p.stdout:
+            chk.violation("spec:search_inductive:" + label, "IndInv of StepSizeSearchInd is not inductive (%s)" % label, p.stdout[-3000:])
+        elif not ok:
+            raise C.ToolError("apalache-mc failed (%s): %s" % (label, p.stdout[-600:]))
+    import shutil
+    shutil.rmtree(out_dir, ignore_errors=True)
+
+
 def update_replay(chk, tier):
     cfg = os.path.join(C.WORK, "c07_update.cfg")
     with open(cfg, "w") as f:
@@ -131,6 +151,7 @@ def run(tier):
     ]
     C.build_harness()
     search_mc(chk, tier)
+    search_inductive(chk)
     update_replay(chk, tier)
     search_traces(chk, tier)
     # routing of the statistics and boundedness of every step size on real chains
